@@ -270,9 +270,10 @@ def variant_job(chk, job, ctx):
             report(chk, g, ty, label, inner, r, {}, 'panics (%s)' % r.value.msg, all_kinds, tvars); continue
         asked = r.extra.get('asked', [])
         want_kind = kind if kind in target_names else 'None'
-        if asked != [want_kind]:
+        if set(asked) != {want_kind}:
             report(chk, g, ty, label, inner, r, {}, 'is classified as Target %r, its kind is %s' % (asked, want_kind), all_kinds, tvars)
             continue
+        # (asking for the node's own kind more than once is not observable by itself; what is returned is judged below)
         # is the node's own kind requested on this path? (Z3: pc implies T_kind / pc implies not T_kind)
         s = z3.Solver(); s.add(*r.pc)
         tv = tvars[want_kind]
